@@ -33,16 +33,16 @@ type TLCResult struct {
 }
 
 type TLCOpts struct {
-	Module   string // e.g. MC_Builders (file spec/<Module>.tla)
-	Cfg      string // cfg file name in spec dir (default Module.cfg)
-	Env      map[string]string
-	Workers  int
-	Timeout  time.Duration
-	Simulate string // e.g. "num=1000" ; empty = BFS
-	DepthArg int
-	Coverage bool
-	Seed     int64
-	DFS      bool // StateDeque
+	Module                 string // e.g. MC_Builders (file spec/<Module>.tla)
+	Cfg                    string // cfg file name in spec dir (default Module.cfg)
+	Env                    map[string]string
+	Workers                int
+	Timeout                time.Duration
+	Simulate               string // e.g. "num=1000" ; empty = BFS
+	DepthArg               int
+	Coverage               bool
+	Seed                   int64
+	DFS                    bool // StateDeque
 	ContinueAfterViolation bool
 }
 
